@@ -2142,7 +2142,7 @@ JANET_CORE_FN(os_readlink,
     (void) argv;
     janet_panic("not supported on Windows");
 #else
-    static char buffer[PATH_MAX];
+    char buffer[PATH_MAX];
     const char *path = janet_getcstring(argv, 0);
     ssize_t len = readlink(path, buffer, sizeof buffer);
     if (len < 0 || (size_t)len >= sizeof buffer)
